@@ -123,8 +123,38 @@ Fixpoint frameb (prev : job) (ops : list op) (obs : list oobs) : bool :=
   | _, _ => true
   end.
 
+(* ---- clause 8: the strict reading of "an expired job deletes its reservation" ----
+   [mine] = a reservation created by this job exists as far as the history tells: a successful
+   create was recorded, no successful delete since, and the environment has not set or deleted the
+   reservation since. When the job is failed for timeout while [mine], the reservation must be gone
+   — whether or not its reference was ever recorded in the job. *)
+Definition created_ok (e : effect) : bool := match ek e with ECreate => eok e | _ => false end.
+Definition deleted_ok (e : effect) : bool := match ek e with EDelete => eok e | _ => false end.
+Definition mine_next (mine : bool) (o : op) (ob : oobs) : bool :=
+  match o with
+  | OSetRes _ => false
+  | OReconcile _ => (mine || existsb created_ok (o_effs ob)) && negb (existsb deleted_ok (o_effs ob))
+  | _ => mine
+  end.
+Definition is_none {A} (x : option A) : bool := match x with None => true | _ => false end.
+Fixpoint timeout_cleans (mine : bool) (prev : job) (ops : list op) (obs : list oobs) : Prop :=
+  match ops, obs with
+  | o :: t, ob :: tb =>
+      (timed_out prev (o_job ob) = true -> mine = true -> o_res ob = None)
+      /\ timeout_cleans (mine_next mine o ob) (o_job ob) t tb
+  | _, _ => True
+  end.
+Fixpoint timeout_cleansb (mine : bool) (prev : job) (ops : list op) (obs : list oobs) : bool :=
+  match ops, obs with
+  | o :: t, ob :: tb =>
+      (negb (timed_out prev (o_job ob)) || negb mine || is_none (o_res ob))
+      && timeout_cleansb (mine_next mine o ob) (o_job ob) t tb
+  | _, _ => true
+  end.
+
 (* ---- the property ---- *)
-Definition C17_holds (j0 : job) (ops : list op) (obs : list oobs) : Prop :=
+(* clauses 1-7 *)
+Definition C17_core (j0 : job) (ops : list op) (obs : list oobs) : Prop :=
   length obs = length ops
   /\ evict_guard j0 obs
   /\ absorbing j0 obs
@@ -132,6 +162,9 @@ Definition C17_holds (j0 : job) (ops : list op) (obs : list oobs) : Prop :=
   /\ at_most_once ops obs
   /\ frame j0 ops obs
   /\ evict_other_node j0 obs.
+
+Definition C17_holds (j0 : job) (ops : list op) (obs : list oobs) : Prop :=
+  C17_core j0 ops obs /\ timeout_cleans false j0 ops obs.
 
 Definition prop_code (j0 : job) (ops : list op) (obs : list oobs) : Z :=
   if negb (Nat.eqb (length obs) (length ops)) then 9
@@ -141,6 +174,7 @@ Definition prop_code (j0 : job) (ops : list op) (obs : list oobs) : Z :=
   else if negb (at_most_onceb ops obs) then 4
   else if negb (frameb j0 ops obs) then 5
   else if negb (evict_other_nodeb j0 obs) then 7
+  else if negb (timeout_cleansb false j0 ops obs) then 8
   else 0.
 
 (* ---- shape of the known finding (sig 1): the same-node check is made once and cached ----
@@ -157,5 +191,22 @@ Fixpoint same_node_only_cached (prev : job) (obs : list oobs) : bool :=
   | [] => true
   | o :: t => (evicts_other_node o || check_cached prev) && same_node_only_cached (o_job o) t
   end.
+
+(* ---- shape of the known finding sig 2: the leaked reservation was never recorded ----
+   Every step at which clause 8 fails started with a job WITHOUT ReservationRef: the reservation was
+   created by an earlier reconcile whose Update recording the reference failed, so deleteReservation
+   had nothing to look up. (With a recorded reference clause 3 fails first: a plain violation.) *)
+Fixpoint leak_only_unrecorded (mine : bool) (prev : job) (ops : list op) (obs : list oobs) : bool :=
+  match ops, obs with
+  | o :: t, ob :: tb =>
+      (negb (timed_out prev (o_job ob)) || negb mine || is_none (o_res ob) || negb (rref prev))
+      && leak_only_unrecorded (mine_next mine o ob) (o_job ob) t tb
+  | _, _ => true
+  end.
+
+(* 1 = same-node check cached (repaired by 025e424: only the old variant shows it),
+   2 = timeout leaves an unrecorded reservation behind, 0 = anything else *)
 Definition finding_code (j0 : job) (ops : list op) (obs : list oobs) : Z :=
-  if (prop_code j0 ops obs =? 7) && same_node_only_cached j0 obs then 1 else 0.
+  if (prop_code j0 ops obs =? 7) && same_node_only_cached j0 obs then 1
+  else if (prop_code j0 ops obs =? 8) && leak_only_unrecorded false j0 ops obs then 2
+  else 0.
